@@ -24,6 +24,7 @@ Mechanism keys: wedge/<channel>/<what>, derail/<channel>/<what>.
 from __future__ import annotations
 
 import asyncio
+import os
 import random
 import struct
 
@@ -96,12 +97,15 @@ def plan(tier, seed):
             cases.append({'chan': chan, 'mode': 'enum', 'part': i, 'parts': n, 'seed': seed * 1000003 + i,
                           'stride': 3 if quick else 1, '_hang_key': f'wedge/{chan}/case-hang'})
     # (b) random rounds
-    per_chan = 10 if quick else 520
+    per_chan = 9 if quick else 210
     rounds = 10 if quick else 50
     for chan in CHANNELS:
         for i in range(per_chan):
             cases.append({'chan': chan, 'mode': 'rand', 'seed': seed * 1000003 + 7919 * i + 13, 'rounds': rounds,
                           '_hang_key': f'wedge/{chan}/case-hang'})
+    only = os.environ.get('C17_ONLY')      # development aid: restrict to some channels (the run is then inconclusive)
+    if only:
+        cases = [c for c in cases if c['chan'] in only.split(',')]
     return cases
 
 
@@ -377,16 +381,22 @@ class Attacker:
 
     # -- LE credit-based channel by hand ----------------------------------------
     async def open_le_coc(self, psm, mtu=512, mps=251, credits=20):
-        my = self.new_cid()
-        ident = self.nid()
-        self.sigs.clear()
-        self.send_sig(0x14, ident, rf.u16(psm) + rf.u16(my) + rf.u16(mtu) + rf.u16(mps) + rf.u16(credits))
-        s = await self.until(lambda: self.take_sig(lambda c, i, d: c == 0x15 and i == ident))
-        if s is None:
-            return 'no LE Credit Based Connection Response'
-        if len(s[2]) < 10:
-            return f'short response {s[2].hex()}'
-        dcid, vmtu, vmps, vcred, result = struct.unpack_from('<HHHHH', s[2], 0)
+        for _attempt in range(24):
+            my = self.new_cid()
+            ident = self.nid()
+            self.sigs.clear()
+            self.send_sig(0x14, ident, rf.u16(psm) + rf.u16(my) + rf.u16(mtu) + rf.u16(mps) + rf.u16(credits))
+            s = await self.until(lambda: self.take_sig(lambda c, i, d: c == 0x15 and i == ident))
+            if s is None:
+                return 'no LE Credit Based Connection Response'
+            if len(s[2]) < 10:
+                return f'short response {s[2].hex()}'
+            dcid, vmtu, vmps, vcred, result = struct.unpack_from('<HHHHH', s[2], 0)
+            if result == 0x000A:
+                # 'source CID already allocated': correct when an earlier (valid) hostile request took
+                # this CID; a real peer picks another one
+                continue
+            break
         if result != 0:
             return f'result={result:#x}'
         self.data[my] = []
@@ -1262,8 +1272,10 @@ class HfpHfDriver(RfcommDriver):
         except vloop.Hang:
             bad.append(('command-never-completes', 'execute_command(AT+CMEE=1) pending after 60 virtual s'))
         except Exception as e:
-            bad.append(('ok-not-seen-after-garbage', f'execute_command(AT+CMEE=1) raised {type(e).__name__}: {e} although the AG answered '
-                                                     f'OK; HF read_buffer={bytes(hf.read_buffer[:60])!r}'))
+            stale = hf.response_queue.qsize()
+            bad.append(('stale-final-result-poisons-next-command' if stale else 'ok-not-seen-after-garbage',
+                        f'execute_command(AT+CMEE=1) raised {type(e).__name__}: {e} although the AG answered OK; '
+                        f'{stale} result code(s) left in the response queue; HF read_buffer={bytes(hf.read_buffer[:60])!r}'))
         # B: an unsolicited +CIEV is still processed
         want = self.n & 1
         self.events.clear()
